@@ -129,6 +129,12 @@ def contract(m: Model, op, recursive=True, full=False):
             R.add(ev("created", False, p))
             dirmod(parent(p))
             A |= {ev("opened", False, p), ev("closed", False, p)}
+    elif k == "mkspecial":
+        # a FIFO or a dangling symbolic link: neither directory nor regular file, reported with the File flavour
+        p = op[1]
+        if in_scope(p, recursive):
+            R.add(ev("created", False, p))
+            dirmod(parent(p))
     elif k == "write":
         p = op[1]
         if in_scope(p, recursive):
@@ -225,7 +231,7 @@ def contract(m: Model, op, recursive=True, full=False):
             R.add(ev("moved", False, "", d) if full else ev("created", False, d))
             dirmod(parent(d))
     elif k == "movein_tree":
-        # op = ["movein_tree", shape, dst]; shape = list of [relpath, kind]
+        # op = ["movein_tree", shape, dst]; shape = list of [relpath, kind] with kind d | f | s (FIFO)
         d = op[2]
         if in_scope(d, recursive):
             R.add(ev("moved", True, "", d) if full else ev("created", True, d))
@@ -244,6 +250,8 @@ def apply(m: Model, op):
     k = op[0]
     if k == "mkfile":
         m.add(op[1], "f")
+    elif k == "mkspecial":
+        m.add(op[1], "s")
     elif k == "mkdir":
         m.add(op[1], "d")
     elif k == "makedirs":
@@ -296,14 +304,14 @@ def valid(m: Model, op, paced=True):
     def untouchable(p):  # subject strictly inside a tainted directory
         return paced and m.inside_tainted(p)
 
-    if k == "mkfile":
+    if k in ("mkfile", "mkspecial"):
         return is_under(op[1], ROOT) and free_name(op[1])
     if k == "write":
         return m.kind(op[1]) == "f" and not untouchable(op[1])
     if k == "chmod":
-        return op[1] in t and op[1] != ROOT and is_under(op[1], ROOT) and not untouchable(op[1])
+        return op[1] in t and m.kind(op[1]) != "s" and op[1] != ROOT and is_under(op[1], ROOT) and not untouchable(op[1])
     if k == "unlink":
-        return m.kind(op[1]) == "f" and is_under(op[1], ROOT) and not untouchable(op[1])
+        return m.kind(op[1]) in ("f", "s") and is_under(op[1], ROOT) and not untouchable(op[1])
     if k == "mkdir":
         return is_under(op[1], ROOT) and free_name(op[1])
     if k == "burst":
@@ -424,6 +432,7 @@ def taint_after(m_before: Model, m: Model, op):
 
 TREE_SHAPES = [
     [],
+    [["x", "d"], ["x/p", "s"], ["q", "s"]],
     [["g", "f"]],
     [["x", "d"]],
     [["x", "d"], ["x/f", "f"], ["g", "f"]],
@@ -432,7 +441,7 @@ TREE_SHAPES = [
 
 DEFAULT_WEIGHTS = {
     "mkfile": 3, "write": 2, "chmod": 1, "unlink": 2, "mkdir": 3, "makedirs": 1, "rmdir": 1, "rmtree": 1,
-    "rename": 4, "moveout": 1, "movein_file": 1, "movein_tree": 1, "drain": 3, "burst": 1,
+    "rename": 4, "moveout": 1, "movein_file": 1, "movein_tree": 1, "drain": 3, "burst": 1, "mkspecial": 1,
 }
 
 
@@ -456,12 +465,14 @@ def gen_ops(rng: random.Random, m: Model, n, names=("a", "b", "c"), max_depth=3,
         op = None
         if k in ("mkfile", "mkdir"):
             op = [k, p]
+        elif k == "mkspecial":
+            op = [k, p, rng.choice(["fifo", "symlink"])]
         elif k in ("write", "unlink"):
-            fs = m.files_in(ROOT)
+            fs = m.files_in(ROOT) + ([q for q in sorted(m.t) if is_under(q, ROOT) and m.t[q][0] == "s"] if k == "unlink" else [])
             if fs:
                 op = [k, rng.choice(fs)]
         elif k == "chmod":
-            es = [q for q in m.t if is_under(q, ROOT) and q != ROOT]
+            es = [q for q in m.t if is_under(q, ROOT) and q != ROOT and m.t[q][0] != "s"]
             if es:
                 op = [k, rng.choice(sorted(es))]
         elif k == "makedirs":
